@@ -439,6 +439,45 @@ fn dump_const_value<'tcx>(cx: &mut Cx<'tcx>, w: &mut W, val: ConstValue, ty: Ty<
                 }
             }
         }
+        ConstValue::Indirect { alloc_id, offset } => {
+            // a `&str` / `&[u8]` stored in memory (e.g. behind a promoted `&&str`): read the wide pointer
+            if let ty::Ref(_, inner, _) = ty.kind() {
+                let is_str = inner.is_str();
+                let is_bytes = matches!(inner.kind(), ty::Slice(el) if *el == tcx.types.u8);
+                if is_str || is_bytes {
+                    if let Some(rustc_middle::mir::interpret::GlobalAlloc::Memory(a)) = tcx.try_get_global_alloc(alloc_id) {
+                        let a = a.inner();
+                        let off = offset.bytes() as usize;
+                        let raw = a.inspect_with_uninit_and_ptr_outside_interpreter(off..off + 16);
+                        let ptr_off = u64::from_le_bytes(raw[0..8].try_into().unwrap()) as usize;
+                        let len = u64::from_le_bytes(raw[8..16].try_into().unwrap()) as usize;
+                        if let Some(prov) = a.provenance().get_ptr(offset) {
+                            if let Some(rustc_middle::mir::interpret::GlobalAlloc::Memory(t)) = tcx.try_get_global_alloc(prov.alloc_id()) {
+                                let t = t.inner();
+                                if ptr_off + len <= t.len() {
+                                    let bytes = t.inspect_with_uninit_and_ptr_outside_interpreter(ptr_off..ptr_off + len);
+                                    w.begin_obj();
+                                    if is_str {
+                                        w.kstr("k", "str");
+                                        w.kstr("v", &String::from_utf8_lossy(bytes));
+                                    } else {
+                                        w.kstr("k", "bytes");
+                                        w.key("v");
+                                        w.begin_arr();
+                                        for b in bytes {
+                                            w.num(*b);
+                                        }
+                                        w.end_arr();
+                                    }
+                                    w.end_obj();
+                                    return;
+                                }
+                            }
+                        }
+                    }
+                }
+            }
+        }
         ConstValue::ZeroSized => {
             if let ty::FnDef(def_id, args) = ty.kind() {
                 let r = Instance::try_resolve(tcx, env(), *def_id, args);
